@@ -253,7 +253,7 @@ func runEpisode(c *Ctx, p e2ePlan, id int) {
 	}
 	client, err := rueidis.NewClient(rueidis.ClientOption{
 		InitAddress: []string{"127.0.0.1:1"}, DialCtxFn: srv.Dial, DisableCache: true, DisableRetry: true,
-		ClientSetInfo: rueidis.DisableClientSetInfo, ConnWriteTimeout: 150 * time.Millisecond, BlockingPoolSize: 4, ForceSingleClient: true,
+		ClientSetInfo: rueidis.DisableClientSetInfo, ConnWriteTimeout: 150 * time.Millisecond, BlockingPoolSize: 1, ForceSingleClient: true,
 	})
 	if err != nil {
 		panic("e2e: NewClient: " + err.Error())
@@ -384,14 +384,43 @@ func runEpisode(c *Ctx, p e2ePlan, id int) {
 		fails = append(fails, [3]string{"stream:ctx-done-wire-leaked", "", "the context was done when DoStream/DoMultiStream checked it; the acquired wire never went back to the pool"})
 	}
 	final := stickyClass(s.Error())
-	// the next streaming command on this client
+	// the property's recycle clause judged on observable facts: once the stream has no next reply
+	// (all consumed, or an error ended it) the wire has been handed back exactly once
+	ended := s.Error() != nil
+	notRecycledKey := "stream:wire-not-recycled"
+	if streamCalls < len(keys) {
+		notRecycledKey = "stream:wire-not-recycled:unclean-non-last-reply"
+	}
+	if ended && pool == "held" {
+		fails = append(fails, [3]string{notRecycledKey, "", fmt.Sprintf("the stream ended after %d of %d replies (Error() = %v, HasNext() = %v) but its connection is neither stored nor closed: streaming pool size=%d idle=%d, the slot is leaked",
+			streamCalls, len(keys), s.Error(), s.HasNext(), sp.Size, len(sp.List))})
+		flagged = true
+	}
+	if pool == "dropped-unclosed" {
+		fails = append(fails, [3]string{"stream:dirty-wire-not-closed", "", "the wire left the pool but its connection was never closed"})
+		flagged = true
+	}
+	recycled := pool
+	switch {
+	case ended && (pool == "stored" || pool == "closed" || pool == "dead" || pool == "stored-but-closed"):
+		recycled = "once"
+	case !ended && pool == "held":
+		recycled = "held"
+	}
+	// the next streaming command on this client (capacity-1 pool, watchdog on the Acquire)
 	next := "-"
 	nextOK := true
-	if pool != "held" {
+	if ended {
 		before := srv.nconns()
-		ns := client.DoStream(context.Background(), client.B().Get().Key(nextKey).Build())
+		wctx, wcancel := context.WithTimeout(context.Background(), 400*time.Millisecond)
+		ns := client.DoStream(wctx, client.B().Get().Key(nextKey).Build())
 		var b bytes.Buffer
 		_, nerr := ns.WriteTo(&b)
+		wcancel()
+		if errors.Is(nerr, context.DeadlineExceeded) && pool == "held" {
+			fails = append(fails, [3]string{notRecycledKey, "", "the follow-up DoStream on the capacity-1 streaming pool could not acquire a connection within the 400ms watchdog: the ended stream still occupies the only slot"})
+			flagged = true
+		}
 		if srv.nconns() > before {
 			next = "new"
 		} else {
@@ -427,7 +456,8 @@ func runEpisode(c *Ctx, p e2ePlan, id int) {
 			c.Fail(f[0], op, f[2])
 		}
 	}
-	if pool != "held" && !flagged {
+	c.Emit(fmt.Sprintf("!recycled %s %d %s %s", p.entry, len(keys), hx(string(sent)), strings.Join(callOps, ",")), recycled, true)
+	if ended && !flagged {
 		// oracle: the next command's payload is its own
 		a := "own"
 		if !nextOK {
@@ -505,6 +535,31 @@ func runE2E(c *Ctx) {
 		p.calls = append(p.calls, e2eCall{-1})
 		run(p)
 	}
+	// DoMultiStream with 2..4 commands and a failure inside every non-last reply position:
+	// connection cut in the middle of reply i, cut exactly in front of reply i, protocol error in reply i
+	for ncmd := 2; ncmd <= 4; ncmd++ {
+		for i := 0; i < ncmd-1; i++ {
+			ws := make([]*wire, ncmd)
+			off := 0
+			for j := range ws {
+				ws[j] = blob(fmt.Sprintf("reply-%d-of-%d", j, ncmd))
+				if j < i {
+					off += len(ws[j].bytes())
+				}
+			}
+			p := mk(ws...)
+			p.cut = off + len(ws[i].bytes())/2
+			run(p)
+			p = mk(ws...)
+			p.cut = off
+			run(p)
+			p = mk(ws...)
+			p.raw[i] = []byte("?bad\r\n")
+			p.replies[i] = nil
+			p.calls = append(p.calls, e2eCall{-1})
+			run(p)
+		}
+	}
 	// the two writer-failure witnesses (Rv.C29.unrepaired_overdiscard_witness / unrepaired_chunks_left_witness; repaired by /repo a376be4 — kept as regression episodes)
 	{
 		p := mk(blob("0123456789"), blob("XX+EVIL\r\n+LEFT"), blob("third"))
@@ -572,7 +627,7 @@ func runE2E(c *Ctx) {
 
 func init() {
 	suites["e2e"] = suite{
-		rule: "end-to-end DoStream/DoMultiStream on the real client (NewClient, DialCtxFn over net.Pipe, streaming pool of no-background pipes) against a scripted server: 1-4 commands per call, replies of every kind (+ pushes in front), entries {ok, context already done at Acquire, context done between Acquire and the DoStream check, flush fails}, server drops after k reply bytes (every k for a short reply), writers {bytes.Buffer, failing after k bytes}, 0-2 extra WriteTo calls; observed per WriteTo (n, error class, bytes, HasNext), sticky Error(), streaming-pool size/idle list (VerifClientPools), client-side close of the connection, and the connection + payload of the next DoStream; compared with Rv.ResultStream.session; `!next` oracle: the next command's payload is its own; non-trivial = every episode (distinct op line)",
+		rule: "end-to-end DoStream/DoMultiStream on the real client (NewClient, DialCtxFn over net.Pipe, streaming pool of no-background pipes) against a scripted server: 1-4 commands per call, replies of every kind (+ pushes in front), entries {ok, context already done at Acquire, context done between Acquire and the DoStream check, flush fails}, server drops after k reply bytes (every k for a short reply), writers {bytes.Buffer, failing after k bytes}, 0-2 extra WriteTo calls; observed per WriteTo (n, error class, bytes, HasNext), sticky Error(), streaming-pool size/idle list (VerifClientPools), client-side close of the connection, and the connection + payload of the next DoStream; compared with Rv.ResultStream.session; `!next` oracle: the next command's payload is its own; `!recycled` oracle + c.Fail keys stream:wire-not-recycled*: once the stream has no next reply the wire has been handed back exactly once (pool size/idle back at baseline, connection closed when unclean, follow-up DoStream on the capacity-1 pool acquires within a 400ms watchdog); non-trivial = every episode (distinct op line)",
 		run:  runE2E,
 		replay: func(c *Ctx, lines []string) {
 			// an e2e line is replayed with the whole server byte stream as the first command's reply
@@ -582,7 +637,7 @@ func init() {
 				if len(w) == 2 && w[0] == "!next" {
 					continue // re-emitted by the episode it belongs to
 				}
-				if len(w) != 5 || w[0] != "e2e" {
+				if len(w) != 5 || (w[0] != "e2e" && w[0] != "!recycled") {
 					c.Emit(l, "bad-op", true)
 					continue
 				}
